@@ -248,4 +248,49 @@ ResultSane(inp, st) ==
 DevsExplain(inp, userx) ==
   LET rf == Lex(inp, userx, {})  ai == Lex(inp, userx, LexDevs) IN
   ai.fired = {} => (ai.out = rf.out /\ ai.err = rf.err)
+
+\* ---- concrete text: code unit -> class (only the characters the generators use; anything else is "?") ----
+ClassOfUnit(cu) ==
+  CASE cu \in {32, 9} -> "sp"
+    [] cu \in {11, 12} -> "vt"
+    [] cu = 10 -> "nl"
+    [] cu \in {97, 99, 100, 102, 65, 67, 68, 70} -> "a"
+    [] cu \in {101, 69} -> "e"
+    [] cu \in {98, 66} -> "b"
+    [] cu \in {120, 88} -> "x"
+    [] cu = 117 -> "u"
+    [] cu \in {111, 79} -> "o"
+    [] (cu >= 103 /\ cu <= 122) \/ (cu >= 71 /\ cu <= 90 /\ cu # 88) \/ cu \in {95, 36} -> "g"     \* other letters (not X), _ $
+    [] cu = 48 -> "0"
+    [] cu = 49 -> "1"
+    [] cu >= 50 /\ cu <= 55 -> "7"
+    [] cu \in {56, 57} -> "9"
+    [] cu = 46 -> "."
+    [] cu = 39 -> "q"
+    [] cu = 34 -> "Q"
+    [] cu = 92 -> "bs"
+    [] cu = 47 -> "/"
+    [] cu = 42 -> "*"
+    [] cu \in {43, 45} -> "+"
+    [] cu = 61 -> "="
+    [] cu = 60 -> "<"
+    [] cu = 62 -> ">"
+    [] cu = 33 -> "!"
+    [] cu \in {38, 124} -> "&"
+    [] cu \in {37, 94} -> "%"
+    [] cu \in {126, 59, 44, 58, 63} -> "~"
+    [] cu = 40 -> "("
+    [] cu = 41 -> ")"
+    [] cu = 91 -> "["
+    [] cu = 93 -> "]"
+    [] cu = 123 -> "{"
+    [] cu = 125 -> "}"
+    [] cu \in {35, 64, 96} -> "#"
+    [] OTHER -> "?"
+ClassesOfUnits(us) == [ui \in 1..Len(us) |-> ClassOfUnit(us[ui])]
+\* a text mixes + with - (or & with |, % with ^) : the class machine would fuse what the real lexer keeps apart
+MixedPunct(us) == \E ui \in 1..(Len(us) - 1) :
+                     \/ {us[ui], us[ui + 1]} = {43, 45} \/ {us[ui], us[ui + 1]} = {38, 124} \/ {us[ui], us[ui + 1]} = {37, 94}
+                     \/ (us[ui] = 37 /\ us[ui + 1] = 61 /\ FALSE)
+TextSupported(us) == ~MixedPunct(us) /\ ~(\E ui \in 1..(Len(us) - 1) : us[ui] = 63 /\ us[ui + 1] \in {63, 46}) /\ ~(\E ui \in 1..(Len(us) - 1) : us[ui] = 92 /\ us[ui + 1] = 88) /\ \A ui \in 1..Len(us) : ClassOfUnit(us[ui]) # "?"
 =============================================================================
